@@ -12,7 +12,7 @@ DECIDED = ("on the MIR of one generated instantiation per fake! arm that has `ti
            "reachable only on the `when`-true edge, the false edge diverges without touching the counter; R6.4 the verifier returned with "
            "the fake holds the same static and the same budget; R6.5 (library) the verifier's destructor compares load(counter) != expected, "
            "panics only when not already unwinding, and the message carries both numbers; R6.6 will_execute stores the verifier in the "
-           "injector before installing")
+           "injector before installing; R6.7 the counter is reset on the way into the installation, so N refers to this installation's calls")
 NOT_DECIDED = "atomicity is trusted to std::sync::atomic; the number of calls a given program makes"
 
 
@@ -134,6 +134,9 @@ def run(ck, models, tier, ws):
                 ck.ob("R6.6", "%s/verifier-stored-before-install" % short(p), tm.target, ok,
                       "verifier pushes on this path: %d (before the first effect: %s)" % (len(pv), ok), where(pv[0]) if pv else None)
     ck.floor("R6.6", "paths-storing-the-verifier", nst, 1)
+    # R6.7 the count an installation is judged on starts at zero (shared with C07 R7.1)
+    from .c07 import install_resets_counter
+    install_resets_counter(ck, tm, "R6.7")
 
 
 def hm_times():
